@@ -573,7 +573,7 @@ func runReal(tr *vh.Trace, cfg realCfg) int {
 	if cfg.enumStride > 0 && cfg.enumN > 0 {
 		common := map[string]bool{"Ethernet": true, "IPv4": true, "IPv6": true, "TCP": true, "UDP": true}
 		idx := 0
-		for ci, c := range append(corpus.TrailingLengthCases(fx, 12), corpus.HeaderEndCases(fx)...) {
+		for ci, c := range append(append(corpus.TrailingLengthCases(fx, 12), corpus.HeaderEndCases(fx)...), corpus.OptionTailCases()...) {
 			if common[c.First.String()] && (ci+int(cfg.seed))%cfg.enumStride != 0 {
 				continue
 			}
